@@ -76,7 +76,8 @@ pub struct Sched {
     n: usize,
 }
 
-const WATCHDOG: Duration = Duration::from_millis(300);
+// Long enough that a merely descheduled thread on a loaded machine is never mistaken for a blocked one.
+const WATCHDOG: Duration = Duration::from_millis(3000);
 
 impl Sched {
     pub fn new(n: usize, prefix: Vec<usize>) -> Arc<Sched> {
